@@ -68,6 +68,16 @@ def readable_n(b, p, n):
     return p + n <= len(b) or terminated(b, p)
 
 
+def cmp_readable_n(a, b, n):
+    """Spec.cmpReadableN: every pair strncmp looks at before it stops is inside both arrays"""
+    for k in range(n):
+        if k >= len(a) or k >= len(b):
+            return False
+        if a[k] != b[k] or a[k] == 0:
+            return True
+    return True
+
+
 def cstr(b, p):
     r = []
     for x in b[p:]:
@@ -94,7 +104,7 @@ def generate(tier, seed):
     # ---------------------------------------------------------------- cctype / cwctype
     for f in CTYPE:
         for c in range(-1, 256):
-            add("ctype f=%s c=%d" % (f, c), "ctype/" + f)
+            add("%s c=%d" % (f, c), "ctype/" + f)
     wpts = set(range(0, 0x300))
     for mid in (0x8000, 0xFFFF, 0x10000, 0x10FFFF, 0x110000, 2 ** 31, 2 ** 32 - 1):
         wpts.update(x for x in range(mid - 40, mid + 41) if 0 <= x < 2 ** 32)
@@ -107,7 +117,7 @@ def generate(tier, seed):
         wpts.update(range(0x300, 0x3000))
     for f in WCTYPE:
         for c in sorted(wpts):
-            add("wctype f=%s c=%d" % (f, c), "wctype/" + f)
+            add("%s c=%d" % (f, c), "wctype/" + f)
 
     # ---------------------------------------------------------------- strings
     def emit_strings(ct, A, M, smax, mmax):
@@ -134,6 +144,9 @@ def generate(tier, seed):
                     for ch in chs:
                         add("strchr s=%s off=%d ch=%d%s" % (fmt_list(buf), len(pre), ch, sfx), T("strchr"))
                         add("strrchr s=%s off=%d ch=%d%s" % (fmt_list(buf), len(pre), ch, sfx), T("strrchr"))
+        # strrchr/wcsrchr with a null pointer (tetl returns null; undefined in ISO C, so glibc is not called)
+        for ch in chs:
+            add("strrchr0 ch=%d%s" % (ch, sfx), T("strrchr0"))
         # memchr: arrays with zeros; counts beyond the array only when the match is found inside it
         for a in ARR:
             for off in (0, 1):
@@ -156,6 +169,13 @@ def generate(tier, seed):
                         if n <= len(a) and n <= len(b) and n > 0 and (len(a) > n or len(b) > n):
                             add("strncmp a=%s aoff=0 b=%s boff=0 n=%d%s"
                                 % (fmt_list(a[:n]), fmt_list(b[:n]), n, sfx), T("strncmp/unterminated"))
+        # strncmp on arrays that are readable only jointly: the call stops at a difference / a pair of zeros
+        # before it would leave the shorter array (Spec.cmpReadableN, weaker than ReadableN of each array)
+        for a in ARR:
+            for b in ARR:
+                for n in range(1, max(len(a), len(b)) + 3):
+                    if cmp_readable_n(a, b, n) and not (readable_n(a, 0, n) and readable_n(b, 0, n)):
+                        add("strncmp a=%s aoff=0 b=%s boff=0 n=%d%s" % (fmt_list(a), fmt_list(b), n, sfx), T("strncmp/joint"))
         for a in S3:
             for b in S3:
                 add("strcmp a=%s aoff=1 b=%s boff=1%s" % (fmt_list([A[0]] + a + [0, A[1]]), fmt_list([A[1]] + b + [0]), sfx),
@@ -216,6 +236,25 @@ def generate(tier, seed):
                             dst = [G] * doff + [G + 1] * n + [G] * tail
                             add("memcpy dst=%s doff=%d src=%s soff=%d n=%d%s"
                                 % (fmt_list(dst), doff, fmt_list(a), soff, n, sfx), T("memcpy"))
+        # memmove across two allocations (`ps < pd` on unrelated pointers; allocation order alternated)
+        for a in ARR:
+            for soff in (0, 1):
+                for n in range(0, len(a) - soff + 1):
+                    for doff, tail in ((0, 0), (1, 1)):
+                        for first in ("dst", "src"):
+                            dst = [G] * doff + [G + 1] * n + [G] * tail
+                            add("memmove2 dst=%s doff=%d src=%s soff=%d n=%d first=%s%s"
+                                % (fmt_list(dst), doff, fmt_list(a), soff, n, first, sfx), T("memmove2"))
+        # memcpy between two disjoint extents of one allocation, every placement, both orders
+        for L in range(0, (9 if thorough else 8)):
+            buf = list(range(1, L + 1))
+            if L >= 3:
+                buf[2] = 0
+            for n in range(0, L + 1):
+                for d in range(0, L - n + 1):
+                    for s_ in range(0, L - n + 1):
+                        if s_ + n <= d or d + n <= s_:
+                            add("memcpy1 buf=%s doff=%d soff=%d n=%d%s" % (fmt_list(buf), d, s_, n, sfx), T("memcpy1"))
         for n in range(0, 6):
             for doff in (0, 1, 2):
                 for tail in (0, 1):
@@ -253,7 +292,7 @@ def generate(tier, seed):
     # ---------------------------------------------------------------- seeded random longer strings
     nrand = 150000 if thorough else 25000
     OPS = ["strlen", "strchr", "strrchr", "memchr", "strcmp", "strncmp", "memcmp", "strspn", "strcspn", "strpbrk",
-           "strstr", "strcpy", "strncpy", "strcat", "strncat", "memcpy", "memset", "memmove"]
+           "strstr", "strcpy", "strncpy", "strcat", "strncat", "memcpy", "memset", "memmove", "memmove2", "memcpy1"]
     for _ in range(nrand):
         wide = rnd.random() < 0.3
         sfx = " ct=wchar" if wide else ""
@@ -365,6 +404,22 @@ def generate(tier, seed):
             doff = rnd.choice([0, 1, 2])
             dst = [G] * doff + [G + 1] * n + [G] * rnd.choice([0, 1])
             add("memcpy dst=%s doff=%d src=%s soff=%d n=%d%s" % (fmt_list(dst), doff, fmt_list(a), o, n, sfx), tag)
+        elif op == "memmove2":
+            a = [rnd.choice(alpha + [0]) for _ in range(rnd.randint(0, 40))]
+            o = min(off, len(a))
+            n = rnd.randint(0, len(a) - o)
+            doff = rnd.choice([0, 1, 2])
+            dst = [G] * doff + [G + 1] * n + [G] * rnd.choice([0, 1])
+            add("memmove2 dst=%s doff=%d src=%s soff=%d n=%d first=%s%s"
+                % (fmt_list(dst), doff, fmt_list(a), o, n, rnd.choice(["dst", "src"]), sfx), tag)
+        elif op == "memcpy1":
+            L = rnd.randint(0, 40)
+            buf = [rnd.choice(alpha + [0]) for _ in range(L)]
+            n = rnd.randint(0, L // 2)
+            lo = rnd.randint(0, L - 2 * n)
+            hi = rnd.randint(lo + n, L - n)
+            d, s_ = rnd.choice([(lo, hi), (hi, lo)])
+            add("memcpy1 buf=%s doff=%d soff=%d n=%d%s" % (fmt_list(buf), d, s_, n, sfx), tag)
         elif op == "memset":
             n = rnd.randint(0, 40)
             doff = rnd.choice([0, 1, 2])
@@ -390,7 +445,7 @@ def _first_list(line):
 def nontrivial(case, rows):
     ln = case.lines[0]
     op = ln.split(" ")[0]
-    if op in ("ctype", "wctype", "div", "abs"):
+    if op in ("ctype", "wctype", "div", "abs", "strrchr0") or op in CTYPE or op in WCTYPE:
         return True
     if " n=0" in ln:
         return False
